@@ -60,17 +60,26 @@ def written_ids(wm, before, after):
     return out
 
 
+_last_signal_k = [None]
+
+
+def res_k_of_signal(plan):
+    return _last_signal_k[0]
+
+
 def evaluate(wm, knobs, plan, check, ctx, twin=None):
     if twin is None:
         twin = scen.exec_run(wm, check, scen.base_plan(plan), knobs, ctx)
     run = scen.exec_run(wm, check, plan, knobs, ctx)
     res = run["res"]
+    # operation number at which the (first) signal was actually raised - needed for class-addressed signals
+    _last_signal_k[0] = res.signals[0][1] if res.signals else None
     tops = twin["res"].ops
     K = len(tops)
     phm = scen.phases(tops)
     sigf = [f for f in plan["faults"] if f["act"].startswith("sig")]
     f0 = sigf[0]
-    k = f0["k"]
+    k = f0.get("k") or (res_k_of_signal(plan) or 0)
     k0 = first_source_op(tops) or (K + 1)
     phase = scen.phase_of(phm, k, K)
     signame = "SIGINT" if f0["signo"] == 2 else "SIGTERM"
@@ -116,7 +125,9 @@ def evaluate(wm, knobs, plan, check, ctx, twin=None):
         if after_k0 and len(opened) > 1:
             V("kept-going-after-signal", "%d further source files were started after the signal: %s" % (len(opened), opened[:4]))
         # (3) exit 0 only if nothing was left to do
-        if after_k0 and res.status == 0 and not io_fault:
+        if after_k0 and res.status == 0 and not (io_fault and check):
+            # (with an extra I/O fault only the edit half is evaluated: exit 0 with a file left un-updated is wrong under
+            # C18 and under C08 alike, whereas what a read fault does to a --check verdict is not this property's business)
             if check:
                 left = [o for o in tops if o.kind == "OPEN_R" and o.path in wm["files"]
                         and (o.k > k or (o.k == k and f0["act"] == "sig_before"))]
@@ -191,6 +202,15 @@ def run_case(rng, idx, tier, ctx):
         elif o2.k != o.k:
             extra.append(("2sig", {"seed": base["seed"], "perm": True,
                                    "faults": [sig, {"k": o2.k, "act": "sig_after", "signo": rng.choice([2, 15])}]}))
+    # directed: one file's rename fails, then a stop signal right after a later rename attempt / read / write
+    nren = sum(1 for o in ops if o.kind == "RENAME")
+    if not check and nren >= 1:
+        for _ in range(2 if not thorough else 12):
+            f1 = {"from": 1, "kinds": [rng.choice(["RENAME", "RENAME", "WRITE", "OPEN_W"])], "pre": "tmp/", "nth": rng.randrange(1, nren + 1),
+                  "act": "fail", "errno": rng.choice(["EACCES", "EXDEV", "ENOSPC"])}
+            f2 = {"from": 1, "kinds": [rng.choice(["RENAME", "RENAME", "OPEN_R", "WRITE", "UNLINK"])], "nth": rng.randrange(1, nren + 2),
+                  "act": rng.choice(["sig_after", "sig_before"]), "signo": rng.choice([2, 15])}
+            extra.append(("fault", {"seed": base["seed"], "perm": True, "faults": [f2, f1]}))
     if not ctx.samples:
         ctx.samples.append({"mode": "check" if check else "edit", "files": sorted(wm["files"]), "k0": k0, "K": K,
                             "twin_ops": [o.short() for o in ops][:50], "first_plans": [p["faults"] for p in plans[:4]]})
@@ -199,7 +219,7 @@ def run_case(rng, idx, tier, ctx):
     for name, plan in [("single", p) for p in plans] + extra:
         vs, delivered = evaluate(wm, knobs, plan, check, ctx, twin)
         f0 = plan["faults"][0]
-        k = f0["k"]
+        k = f0.get("k") or (_last_signal_k[0] or 0)
         ph = scen.phase_of(phm, k, K)
         if delivered:
             ctx.nontrivial.add("%d.%s.%d.%s.%d.%s" % (idx, "c" if check else "e", k, f0["act"], f0["signo"], name))
